@@ -3,9 +3,10 @@
 (* baize/routing.py BaseHosts.search + */routing.py Hosts.__call__         *)
 (*                                                                         *)
 (* Linear search for the first pattern that matches the ENTIRE Host value. *)
-(* A pattern is a sequence of elements [opt, lit]: a literal token string, *)
-(* optional or not - the `(www\.)?example\.com` style of the docs.  Host   *)
-(* values are token sequences (the empty one = no Host header).            *)
+(* A pattern is a sequence of ALTERNATIVES (top-level `a|b`), each a       *)
+(* sequence of elements [opt, lit]: a literal token string, optional or    *)
+(* not - the `(www\.)?example\.com` style of the docs.  Host values are    *)
+(* token sequences (the empty one = no Host header).                       *)
 (***************************************************************************)
 EXTENDS Naturals, Sequences
 
@@ -18,12 +19,14 @@ vars == <<tab, host, i, chosen>>
 IsPrefixAt(p, s) == Len(s) >= Len(p) /\ SubSeq(s, 1, Len(p)) = p
 Drop(s, n) == SubSeq(s, n + 1, Len(s))
 
-RECURSIVE FullMatch(_, _)
-FullMatch(p, h) ==
+RECURSIVE MatchSeq(_, _)
+MatchSeq(p, h) ==
   IF p = <<>> THEN h = <<>>
   ELSE LET e == Head(p) IN
-       \/ (IsPrefixAt(e.lit, h) /\ FullMatch(Tail(p), Drop(h, Len(e.lit))))
-       \/ (e.opt /\ FullMatch(Tail(p), h))
+       \/ (IsPrefixAt(e.lit, h) /\ MatchSeq(Tail(p), Drop(h, Len(e.lit))))
+       \/ (e.opt /\ MatchSeq(Tail(p), h))
+\* the ENTIRE host value has to be matched by one of the alternatives
+FullMatch(p, h) == \E k \in 1..Len(p) : MatchSeq(p[k], h)
 
 TheTables == HostTables   \* evaluated once (see Mount.tla)
 Table == TheTables[tab]
